@@ -10,7 +10,7 @@
 (* property statement can be checked as ACTION properties, formulated      *)
 (* independently of the operators used to define the actions.              *)
 (***************************************************************************)
-EXTENDS LinkedDict
+EXTENDS LinkedDict, Json
 
 CONSTANTS Keys, Vals, Maxes, MaxVal, IsSet, None, Rej, EK
 
@@ -24,6 +24,10 @@ MCInit == InitWith(Cfg) /\ act = <<"Init", 0, 0>>
 Lbl(n, k, v) == act' = <<n, k, v>>
 
 AddFits(k, v) == IF Present(k) THEN val[k] + v <= MaxVal ELSE TRUE
+
+DirSeq == <<"asc", "desc", "par">>
+ObsOps == {"GetFirstKey", "GetLastKey", "GetFirstValue", "GetLastValue", "IsEmpty", "IsFull",
+           "ToString", "Keys", "KeyArray", "Values", "Entries"}
 
 MCNext ==
   \/ \E k \in Keys, v \in Vals :
@@ -41,8 +45,13 @@ MCNext ==
   \/ RemoveFirst /\ Lbl("RemoveFirst", 0, 0)
   \/ RemoveLast /\ Lbl("RemoveLast", 0, 0)
   \/ Clear /\ Lbl("Clear", 0, 0)
-  \/ \E d \in Dirs : Sort(d) /\ Lbl("Sort", 0, 0)
+  \/ \E i \in 1..Len(DirSeq) : Sort(DirSeq[i]) /\ Lbl("Sort", i, 0)
   \/ \E n \in Maxes : SetMax(n) /\ Lbl("SetMax", n, 0)
+  \* read-only calls: stuttering steps, labelled so that the dumped state graph
+  \* (below) makes the replayer issue them from every reachable state
+  \/ \E o \in ObsOps : UNCHANGED vars /\ Lbl(o, 0, 0)
+  \/ \E k \in Keys : UNCHANGED vars /\ Lbl("ContainsKey", k, 0)
+  \/ \E v \in 1..(MaxVal + 1) : ~IsSet /\ UNCHANGED vars /\ Lbl("ContainsValue", 0, v)
 
 MCSpec == MCInit /\ [][MCNext]_mcvars
 
@@ -100,6 +109,13 @@ PutThenGet == [][PutThenGetA]_mcvars
 \* get-LRU moves the entry to the end and changes nothing else
 LRUMovesA == A = "GetLRU" => (val' = val /\ (~WasNew => ord'[Len(ord')] = K) /\ (WasNew => ord' = ord))
 LRUMoves == [][LRUMovesA]_mcvars
+
+\* ---- (B) the complete labelled state graph, one line of output per transition ---
+\* Used as ACTION_CONSTRAINT (always TRUE): TLC evaluates it for EVERY successor
+\* it generates, also those leading to states already seen.  checks/c09.py turns
+\* the lines into harness/c09/graph_*.txt, which the Go driver replays edge by
+\* edge on each real type.  Label = <<operation, key | dir index | bound, value>>.
+DumpT == PrintT(ToJson(<<"T", ord, ValuesSeq, max, act', ord', ValuesSeq', max'>>))
 
 NoneNil  == <<>>
 NoneZero == <<0>>
